@@ -194,9 +194,24 @@ def recovery_script(tmpdir: str) -> str | None:
     except OSError:
         return None
     match = re.search(r'```bash\n(#!/bin/bash\nCONTAINER_PATH=.*?)```', text, re.S)
-    if not match or shutil.which('sqlite3') is None or shutil.which('bash') is None:
+    if not match or shutil.which('bash') is None:
         return None
     script = match.group(1)
+    # the sqlite3 command-line shell: the one on PATH, else well-known locations of this image; if there is none at all, a
+    # minimal stand-in built on Python's sqlite3 module that prints rows exactly like the shell's default list mode
+    cli = shutil.which('sqlite3') or next((c for c in ('/root/miniconda/bin/sqlite3', '/usr/bin/sqlite3', '/usr/local/bin/sqlite3',
+                                                       '/opt/conda/bin/sqlite3') if os.path.exists(c)), None)
+    shim = os.path.join(tmpdir, 'sqlite3')
+    if cli is not None:
+        with open(shim, 'w', encoding='utf8') as fh:
+            fh.write(f'#!/bin/sh\nexec {cli} "$@"\n')
+        _SCRIPT_CACHE['sqlite'] = 'cli'
+    else:
+        with open(shim, 'w', encoding='utf8') as fh:
+            fh.write('#!/bin/sh\nexec /venv/bin/python -c "import sys,sqlite3;con=sqlite3.connect(sys.argv[1]);'
+                     '[print(chr(124).join(str(c) for c in r)) for r in con.execute(sys.argv[2])]" "$@"\n')
+        _SCRIPT_CACHE['sqlite'] = 'python-stand-in'
+    os.chmod(shim, 0o755)
     inflate = os.path.join(tmpdir, 'zlib-flate')
     with open(inflate, 'w', encoding='utf8') as fh:
         fh.write('#!/bin/sh\nexec /venv/bin/python -c "import sys,zlib;'
@@ -232,6 +247,7 @@ def run_recovery(world, tmpdir: str, nsample: int = 2):
             world.counters['recovery-unavailable'] += 1  # CLI refuses the documented quoting: tool issue
             return
         world.counters['recovery-script-runs'] += 1
+        world.counters[f'recovery-script-runs-with-sqlite-{_SCRIPT_CACHE.get("sqlite")}'] += 1
         if row.compressed:
             world.counters['recovery-script-runs-compressed'] += 1
         if proc.returncode != 0 or proc.stdout != world.model[row.hashkey]:
